@@ -200,6 +200,8 @@ fn lang_compose_only() -> Lang {
     for (from, to) in XC_COMPOSE.iter() {
         lang.add_unicode_composition(from, to);
     }
+    // a key of three characters (a base letter and two marks): never applies, see the reduce-only language
+    lang.add_unicode_composition("a\u{302}\u{301}", "\u{1ea5}");
     // characters that stay inside words, labelled with classes the bundled tables never use
     use lucid_suggest_core::lang::CharClass;
     lang.add_char_class('\u{b7}', CharClass::Punctuation);
@@ -220,6 +222,10 @@ fn lang_reduce_only() -> Lang {
     for (from, to) in XR_REDUCE.iter() {
         lang.add_unicode_reduction(from, to);
     }
+    // keys of three and four characters: the library looks at one and two characters at a time, so such entries never
+    // apply (texts holding "sch" stay as they are) - registering them must not change anything else either
+    lang.add_unicode_reduction("sch", "sh");
+    lang.add_unicode_reduction("tsch", "ch");
     // four function words; the longest of them ("außer") holds a letter that the table lengthens, so its normalised
     // spelling is longer than every spelling the language was given
     use lucid_suggest_core::lang::PartOfSpeech;
@@ -303,16 +309,22 @@ pub type Hits = Vec<(usize, String)>;
 pub struct St {
     pub store: Store,
     pub lang: &'static str,
-    /// In one case out of three every store keeps ONE query buffer for its whole life and writes each tokenised query into
+    /// One store in three keeps ONE query buffer for its whole life and writes each tokenised query into
     /// it in place (what a caller does that avoids allocating per keystroke): the same memory then holds other content from
     /// one search to the next.
     pub reuse_query_buffer: bool,
+    /// For one store in five every search is preceded by the very same text tokenised by ANOTHER language
+    /// (same characters typed, other normalisation: another query) - its answer is thrown away.
+    pub foreign_query_first: bool,
     qbuf: std::sync::Mutex<Option<TextOwn>>,
 }
 
 /// Set by the framework before every case (one case at a time per process): decides per case what stores built during it do.
 pub static CASE_SEED: std::sync::atomic::AtomicU64 = std::sync::atomic::AtomicU64::new(0);
+pub static ST_SEQ: std::sync::atomic::AtomicU64 = std::sync::atomic::AtomicU64::new(0);
 pub static QUERY_BUFFER_REUSES: std::sync::atomic::AtomicU64 = std::sync::atomic::AtomicU64::new(0);
+pub static FOREIGN_QUERIES: std::sync::atomic::AtomicU64 = std::sync::atomic::AtomicU64::new(0);
+pub static FOREIGN_QUERIES_THAT_DIFFER: std::sync::atomic::AtomicU64 = std::sync::atomic::AtomicU64::new(0);
 
 impl St {
     pub fn new(lang: &str, limit: usize, markers: (&str, &str)) -> St {
@@ -320,8 +332,13 @@ impl St {
         store.lang = take_lang(lang);
         store.limit = limit;
         store.highlight_with(markers);
-        let reuse = mix(CASE_SEED.load(std::sync::atomic::Ordering::Relaxed), 0x51b0f) % 3 == 0;
-        St { store, lang: static_name(lang), reuse_query_buffer: reuse, qbuf: std::sync::Mutex::new(None) }
+        // (decided per store, from the case's seed and the store's number within the case: a reference store built next to the
+        // observed one does not necessarily get the same treatment)
+        let seq = ST_SEQ.fetch_add(1, std::sync::atomic::Ordering::Relaxed);
+        let per_store = mix(CASE_SEED.load(std::sync::atomic::Ordering::Relaxed), seq);
+        let reuse = mix(per_store, 0x51b0f) % 3 == 0;
+        let foreign = mix(per_store, 0xf0e1) % 5 == 0;
+        St { store, lang: static_name(lang), reuse_query_buffer: reuse, foreign_query_first: foreign, qbuf: std::sync::Mutex::new(None) }
     }
     pub fn sentinel(lang: &str, limit: usize) -> St {
         let (a, b) = (S1.to_string(), S2.to_string());
@@ -347,6 +364,30 @@ impl St {
     }
     fn run_query(&self, q: &str) -> Vec<SearchResult> {
         let query = tokenize_query(q, &self.store.lang);
+        if self.foreign_query_first {
+            // preferably a language that normalises this very text differently (the first such one, starting somewhere in the list)
+            let start = ((hstr(q) ^ hstr(self.lang)) % NL) as usize;
+            let mut chosen: Option<TextOwn> = None;
+            for k in 0..LANGS.len() {
+                let other = LANGS[(start + k) % LANGS.len()];
+                if other == self.lang {
+                    continue;
+                }
+                let foreign = with_lang(other, |l| tokenize_query(q, l));
+                let differs = foreign.chars != query.chars;
+                if chosen.is_none() || differs {
+                    chosen = Some(foreign);
+                }
+                if differs {
+                    FOREIGN_QUERIES_THAT_DIFFER.fetch_add(1, std::sync::atomic::Ordering::Relaxed);
+                    break;
+                }
+            }
+            if let Some(foreign) = chosen {
+                let _ = self.store.search(&foreign.to_ref());
+                FOREIGN_QUERIES.fetch_add(1, std::sync::atomic::Ordering::Relaxed);
+            }
+        }
         self.with_query(query, |r| self.store.search(r))
     }
     /// Hands `query` to `f` - from the store's retained query buffer, written in place, when this store re-uses one.
